@@ -37,6 +37,19 @@ NUM_KEYS = ["memory_stops", "scenarios", "incomplete_scenarios", "single_outcome
             "js_runs", "js_moves", "js_spins", "desc_allocs"]
 
 
+def _sweep_fifos():
+    """The jobserver seam's FIFO (/dev/shm/nxjs.<pid>) of worker processes that left through _exit(): remove those whose
+    process is gone."""
+    import glob
+    for f in glob.glob("/dev/shm/nxjs.*"):
+        pid = f.rsplit(".", 1)[1]
+        if pid.isdigit() and not os.path.exists("/proc/" + pid):
+            try:
+                os.unlink(f)
+            except OSError:
+                pass
+
+
 def run(check, scenarios, props, depth=None, devbound=None, seconds=None, tag="nx", extra=()):
     """Explore all scenarios; returns aggregated dict.  Violations for properties in `props` are
     reported through check.violation()/check.known()."""
@@ -58,6 +71,7 @@ def run(check, scenarios, props, depth=None, devbound=None, seconds=None, tag="n
         c += list(extra)
         cmds.append(c)
     res = check.run_many(cmds)
+    _sweep_fifos()
     agg = {k: 0 for k in NUM_KEYS}
     agg["max_schedules_per_point"] = 0
     agg["max_running"] = 0
